@@ -305,7 +305,10 @@ def run_detect(sc):
 
 def scenario(rnd, n, dead, noisy, top, ns=3000):
     # noise instead of the signal only when the two faults are separate (more than a median window apart)
-    nrep = 1 if (noisy and rnd.random() < 0.4 and (not dead or abs(dead - noisy) > 10)) else 0
+    # (and not within the median window below the block: a noise-only channel has coherence 0 +- 0.15 with the
+    #  median trace, too close to call where it is the deciding 6th value of a window)
+    nrep = 1 if (noisy and rnd.random() < 0.4 and (not dead or abs(dead - noisy) > 10)
+                 and not (n - top - 6 < noisy <= n - top)) else 0
     return {"kind": "detect", "n": n, "dead": dead, "noisy": noisy, "nrep": nrep, "top": top, "ns": ns,
             "seed": rnd.randrange(1 << 30),
             "amp": rnd.choice([40e-6, 60e-6, 80e-6]), "sig": rnd.choice([3e-6, 4e-6, 5e-6]),
@@ -701,6 +704,11 @@ def run(ctx):
             r = recs[i]
             ctx.sample({"what": describe(metas[i], r), "observed": {k: (v if not isinstance(v, list) or len(v) < 12 else
                                                                       str(v[:12]) + "..") for k, v in r.items() if k != "g"}})
+    keys = {}
+    for v in ctx.violations:
+        if v:
+            keys[v["key"]] = keys.get(v["key"], 0) + 1
+    ctx.cov["violation_keys"] = keys
     # ---- binding self-test ---------------------------------------------------------------------------
     selftest(ctx, recs, bad, exp)
     ctx.cov["rule"] = ("model: every label vector over {0,1,2,3} on 6-8 sites of six geometries x every repair order; "
